@@ -1,8 +1,11 @@
 (* C09 - formatting and naming options never change the computed model.
-   Property theorems only; proofs are in Proofs/Pipeline.v (generic) and
-   Proofs/StagesC09.v (facts about the stage table generated from main.py). *)
-From Coq Require Import String List Bool Arith.
+   Property theorems only; proofs are in Proofs/Pipeline.v (generic),
+   Proofs/StagesC09.v (facts about the stage table generated from main.py),
+   Proofs/PqrFormat.v (C08's string model of the writer) and
+   Proofs/PqrFormatC09.v (what the print-time options can change in a line). *)
+From Coq Require Import String List Bool Arith ZArith.
 From PV Require Import Model.Pipeline Proofs.Pipeline Generated.Stages Proofs.StagesC09.
+From PV Require Import Lib.Strings Model.PqrFormat Proofs.PqrFormat Proofs.PqrFormatC09.
 Import ListNotations.
 Local Open Scope string_scope.
 
@@ -101,6 +104,74 @@ Example C09_nonvacuous :
        /\ Demo.dphys (Demo.dmodel (snd r1)) = 1 /\ Demo.dphys (Demo.dmodel (snd r2)) = 1.
 Proof. exact Demo.demo_nonvacuous. Qed.
 
+(* ---- printing side: concrete theorems over C08's string model of
+        Atom.get_pqr_string / io.print_biomolecule_atoms / main.print_pqr ---- *)
+
+(* --keep-chain changes column 22 only (ALL atoms, no guard) *)
+Theorem C09_chainflag_only_col22 : forall a : atom,
+  exists pre c post,
+    String.length pre = 21 /\ String.length c = 1 /\
+    pqr_string true a = pre ++ c ++ post /\
+    pqr_string false a = pre ++ " " ++ post.
+Proof. exact chainflag_only_col22. Qed.
+
+(* the --ffout renaming (ANY new names) changes columns 13-20 only *)
+Theorem C09_rename_only_name_columns : forall (cf : bool) (a : atom) (n r : string),
+  take 12 (pqr_string cf (with_names n r a)) = take 12 (pqr_string cf a)
+  /\ drop 20 (pqr_string cf (with_names n r a)) = drop 20 (pqr_string cf a).
+Proof. exact rename_cols. Qed.
+
+(* --whitespace: the five numeric tokens after re-spacing are the five numeric
+   column slices before it, in order (ALL atoms whose numeric fields fit their
+   columns - the region C08 proves; outside it C08 has the refutations) *)
+Theorem C09_respace_keeps_numeric_tokens : forall (cf : bool) (a : atom),
+  num_ok a = true ->
+  exists front,
+    tokens (ws_line cf a) = (front ++ num_tokens a)%list /\
+    map (fun c => strip (slice (fst c) (snd c) (pqr_string cf a))) num_cols = num_tokens a.
+Proof. exact respace_keeps_numeric_tokens. Qed.
+
+(* ... also across --keep-chain and renaming: tokens of the option run's line =
+   numeric columns of the plain run's line *)
+Theorem C09_whitespace_options_keep_numeric_tokens :
+  forall (cf1 cf2 : bool) (f : atom -> option (string * string)) (a : atom),
+  num_ok a = true ->
+  exists front,
+    tokens (ws_line cf1 (rename_with f a)) = (front ++ num_tokens a)%list
+    /\ map (fun c => strip (slice (fst c) (snd c) (pqr_string cf2 a))) num_cols = num_tokens a.
+Proof. exact whitespace_options_keep_numeric_tokens. Qed.
+
+(* line i renders atom i with serial i+1; nothing is reordered *)
+Theorem C09_serial_is_position : forall (cf : bool) (l : list atom) (i : nat),
+  nth_error (atom_lines (print_items cf l)) i =
+  option_map (fun a => pqr_string cf (with_serial (Z.of_nat i + 1) a)) (nth_error l i).
+Proof. exact serial_is_position. Qed.
+
+Theorem C09_order_preserved : forall (cf : bool) (l : list atom),
+  atom_lines (print_items cf l) = numbered cf 0 l.
+Proof. exact order_preserved. Qed.
+
+(* ALL atom lists, ALL renamings, both chain flags: the printed atom lines of
+   the renamed list under one flag and of the original list under the other
+   agree line by line in columns 31.. (x y z charge radius) and 1-11 (record
+   type, serial), and there is one line per atom *)
+Theorem C09_print_options_keep_numbers :
+  forall (cf1 cf2 : bool) (f : atom -> option (string * string)) (l : list atom),
+  map (drop 30) (atom_lines (print_items cf1 (map (rename_with f) l)))
+    = map (drop 30) (atom_lines (print_items cf2 l))
+  /\ map (take 11) (atom_lines (print_items cf1 (map (rename_with f) l)))
+    = map (take 11) (atom_lines (print_items cf2 l))
+  /\ List.length (atom_lines (print_items cf1 (map (rename_with f) l))) = List.length l.
+Proof. exact print_options_keep_numbers. Qed.
+
+Example C09_print_nonvacuous :
+  num_ok base_atom = true
+  /\ pqr_string true (rename_with (fun _ => Some ("LYN", "HZ1")) base_atom) <> pqr_string false base_atom
+  /\ drop 30 (pqr_string true (rename_with (fun _ => Some ("LYN", "HZ1")) base_atom))
+     = drop 30 (pqr_string false base_atom)
+  /\ String.length (drop 30 (pqr_string false base_atom)) = 39.
+Proof. exact print_options_nonvacuous. Qed.
+
 Print Assumptions C09_format_noninterference.
 Print Assumptions C09_generated_obligation.
 Print Assumptions C09_generated_noninterference.
@@ -110,3 +181,11 @@ Print Assumptions C09_drop_water_is_deletion.
 Print Assumptions C09_drop_water_app.
 Print Assumptions C09_drop_water_commutes.
 Print Assumptions C09_nonvacuous.
+Print Assumptions C09_chainflag_only_col22.
+Print Assumptions C09_rename_only_name_columns.
+Print Assumptions C09_respace_keeps_numeric_tokens.
+Print Assumptions C09_whitespace_options_keep_numeric_tokens.
+Print Assumptions C09_serial_is_position.
+Print Assumptions C09_order_preserved.
+Print Assumptions C09_print_options_keep_numbers.
+Print Assumptions C09_print_nonvacuous.
